@@ -4,6 +4,7 @@ CONSTANTS
   MaxModel = 2
   FileMode = FALSE
   MaxOps = 0
+  Layered = FALSE
   NObj = 2
   Deviations = {}
 CHECK_DEADLOCK FALSE
